@@ -177,6 +177,20 @@ def rule_a(ctx, ix, inv):
                           'functions)' % (f.construct, w, len(inv.memoized)))
             ctx.ob(R, '%s `%s`' % (f.construct, norm(st)), 'write of %s is followed by a full invalidation' % w, False,
                    detail=detail, where=where(f, st), path=cfg.guards_on_path(path))
+        # ... and before anybody is told: listeners react to the announcement by re-evaluating masks
+        from ..announce import Announcer
+        an = Announcer(ctx, f)
+        bnodes = [n for n, m, c in an.broadcast_nodes()]
+        for n, st, w in writes:
+            for b in bnodes:
+                p2 = cfg.path_avoiding(n, b, avoid=set(inval_all), labels_excluded=('exc', 'raise'), pruned_edges=pruned)
+                if p2 is None:
+                    ctx.ob(R, '%s `%s` before broadcast' % (f.construct, norm(st)), 'the caches are invalidated before the change is announced', True)
+                else:
+                    ctx.ob(R, '%s `%s` before broadcast' % (f.construct, norm(st)), 'the caches are invalidated before the change is announced', False,
+                           detail='%s replaces %s and broadcasts the change (`%s`) before invalidating the memoised masks: every '
+                                  'listener that re-evaluates a selection in its handler (viewers do) still gets the mask of the old values'
+                                  % (f.construct, w, norm(cfg.stmt[b])), where=where(f, cfg.stmt[b]), path=cfg.guards_on_path(p2))
 
 
 # ---------------------------------------------------------------------------------------
